@@ -352,7 +352,21 @@ pub fn generate(rng: &mut Rng, property: &str, deep: bool) -> Scn {
         let tau_s = book.tau.as_secs_f64();
         let mut dt: Option<(f32, Fault)> = None;
         if rng.chance(tk.p_astro) {
-            let v = *rng.pick(&[1e10f32, 1e15, 1.8e19, 1.9e19, 1e20, 1e30, f32::MAX]);
+            // including the largest number of seconds a Duration can hold (2^64, as f32) and
+            // its two neighbours
+            let dmax = Duration::MAX.as_secs_f32();
+            let v = *rng.pick(&[
+                1e10f32,
+                1e15,
+                1.8e19,
+                f32::from_bits(dmax.to_bits() - 1),
+                dmax,
+                f32::from_bits(dmax.to_bits() + 1),
+                1.9e19,
+                1e20,
+                1e30,
+                f32::MAX,
+            ]);
             dt = Some((v, Fault::Astronomical));
         } else if rng.chance(tk.p_suspend) {
             let v = *rng.pick(&[3600.0f32, 86400.0, 3.15e7, 3.15e9]) * (1.0 + rng.unit() as f32);
